@@ -24,6 +24,7 @@ RULE = ('Hypothesis generates arrays with a distinct value in every (model, aper
         '(files written by the independent writer, incl. the legacy unit strings, read by the library). Non-trivial = >= 3 '
         'wavelengths with a non-palindromic spectrum; distinct = distinct canonical JSON.')
 RULE += (' ' + 'Also varied: an older compressed copy <name>.gz next to the SED file being written, error units, second cube with permuted names.')
+RULE += (' ' + 'Aperture axis stored ascending / descending / rotated, cells compared by aperture value.')
 ASSUMPTIONS = [
     'values are requested in the unit they were stored in; equality within 1e-13 relative (unit algebra rounds), exact '
     'for convolved-flux tables',
